@@ -248,6 +248,21 @@ func (r *Runner) Do(ev Ev) {
 		case ev.X == -1:
 		case ev.X == -2:
 			target = "srvx3f"
+		case ev.X == -3:
+			// another server's id with the numeric part of a live session of this one
+			// (the requester's own if it has one): unknown here, to be refused
+			target = "othersrvx1"
+			var pick *MSession
+			if c.Sess != nil {
+				pick = c.Sess
+			} else if ls := liveSessions(m); len(ls) > 0 {
+				pick = ls[0]
+			}
+			if pick != nil {
+				if i := strings.LastIndex(pick.ID, "x"); i >= 0 {
+					target = "othersrvx" + pick.ID[i+1:]
+				}
+			}
 		default:
 			target = m.Sessions[ev.X].ID
 		}
